@@ -90,6 +90,9 @@ def corrupt_archive(src, dst, how, r_seed):
                 shutil.rmtree(dirs[how.get("idx", 0) % len(dirs)])
         elif kind == "index_not_sqlite":
             (tmp / "version_index_archive.sqlite").write_bytes(b"garbage" * 100)
+        elif kind == "index_empty":
+            # the index member lost its contents (zero bytes): SQLite opens it as an empty database
+            (tmp / "version_index_archive.sqlite").write_bytes(b"")
         members = sorted(os.listdir(tmp))
         subprocess.run(["tar", "czf", str(dst), "-C", str(tmp)] + members, check=True)
     finally:
@@ -219,6 +222,7 @@ def execute(scn, seed, plans=None, snapshots=True, keep=False, stop_after=None, 
                     src = dst
                 op["archive_path"] = str(src)
                 st.archive_path = str(src)
+                st.archive_orig_path = str(arch / (op["archive"] + ".tar.gz")) if op["archive"] != "@default" else str(src)
                 st.archive_info = _archive_rows(src)
             op["argv"] = S.op_argv(op)
             if str(op.get("cwd", "")).startswith("@"):
@@ -345,6 +349,18 @@ def _plant(world, root, op):
                 if not item.get("empty"):
                     (p / "planted.txt").write_bytes(b"planted before restore")
                 world.count("fault.archive_preexisting_directory")
+            continue
+        if item["kind"] == "remove_recorded_dir":
+            # somebody deleted the directory of a recorded version by hand (rm -rf), the row is still there
+            rows_ = sim.read_rows(root)
+            if isinstance(rows_, list) and rows_:
+                from . import model as _M3
+
+                rr = rows_[item.get("idx", 0) % len(rows_)]
+                q_ = out / _M3.out_dir_rel(rr[0], rr[1])
+                if q_.is_dir() and not q_.is_symlink():
+                    _safe_rmtree(q_)
+                    world.count("fault.recorded_version_directory_removed_by_hand")
             continue
         p = out / item["path"] if not item.get("outside") else root.parent / item["path"]
         kind = item["kind"]
